@@ -108,6 +108,15 @@ LEDGER_VARIANTS = ["genuine", "genuine-reordered", "key-replaced", "btc-key-repl
                    "forged-extra-targets", "flip-signature-extra-targets"]
 
 
+def tail_bytes(rng, n):
+    """bytes appended to a signed message: random ones, or ones that parsers tend to
+    overlook at the end of a value (newline, NUL, blank, CR LF)"""
+    if rng.random() < 0.5:
+        return rng.randbytes(n)
+    one = rng.choice([b"\n", b"\n", b"\x00", b" ", b"\r"])
+    return (rng.randbytes(n - 1) + one) if n > 1 and rng.random() < 0.5 else one * n
+
+
 def odd_paths(rng, must_have=None):
     """operator key sets whose path names sort differently as text and as numbers"""
     import re as _re
@@ -185,13 +194,13 @@ def ledger_case(acc, rng, variant, tmpdir, case):
     elif variant.startswith("signer-len"):
         delta = int(variant[len("signer-len"):])
         m = info["signer_msg"]
-        m2 = m + rng.randbytes(delta) if delta > 0 else m[:delta]
+        m2 = m + tail_bytes(rng, delta) if delta > 0 else m[:delta]
         la.resign(doc, info, "signer", m2, rng)
         expect_ok = False
     elif variant.startswith("legacy-len"):
         delta = int(variant[len("legacy-len"):])
         m = info["signer_msg"]
-        m2 = m + rng.randbytes(delta) if delta > 0 else m[:delta]
+        m2 = m + tail_bytes(rng, delta) if delta > 0 else m[:delta]
         la.resign(doc, info, "signer", m2, rng)
         expect_ok = False
     elif variant == "ui-header-dot-wildcard":
@@ -378,7 +387,7 @@ def sgx_case(acc, rng, variant, tmpdir, case):
     msg, fields = g2.powhsm_message(rng, signed_kh, platform=b"sgx")
     if variant.startswith("msg-len"):
         delta = int(variant[len("msg-len"):])
-        msg = msg + rng.randbytes(delta) if delta > 0 else msg[:delta]
+        msg = msg + tail_bytes(rng, delta) if delta > 0 else msg[:delta]
         expect_ok = False
     elif variant == "header-dot-wildcard":
         msg = msg.replace(b"POWHSM:5.4::", b"POWHSM:5" + rng.choice([b"x", b"-", b"0"]) + b"4::")
